@@ -49,11 +49,68 @@ def cmdSplit (s : Array Nat) : String :=
     "ok " ++ " ".intercalate (sts.map fun st => toString st.length) ++ " | " ++
       " ; ".intercalate (sts.map fun st => showText (pyStrip (stmtText st)))
 
+/-- `csl <isCreate> <beginDepth> <inCase> <type.path> <hex value>` → `delta isCreate beginDepth inCase inDeclare` -/
+def cmdCsl (ws : List String) : String :=
+  match ws with
+  | ic :: bd :: ica :: tt :: rest =>
+    let f : SplitFlags := { isCreate := ic == "1", beginDepth := bd.toNat!, inCase := ica.toNat! }
+    let (d, f') := changeSplitLevel defaultSplitCfg f (parseTType tt) (parseText rest).toList
+    s!"{d} {if f'.isCreate then 1 else 0} {f'.beginDepth} {f'.inCase} {if f'.inDeclare then 1 else 0}"
+  | _ => "bad-request"
+
+-- >>> grouping commands (parse / group) ---------------------------------------------------------
+/-- `parse <fuel> <hex text>` → `ok <sexp> <sexp> …` (one `( Statement … )` per statement) or `err <PyErr>` -/
+def cmdParse (ws : List String) : String :=
+  match ws with
+  | fuel :: rest =>
+    match parseTrees fuel.toNat! (parseText rest) with
+    | .error e => "err " ++ e.name
+    | .ok ns => "ok" ++ sexpL ns
+  | [] => "bad-request"
+
+/-- `group <fuel> <sexp>`: the argument is either one `( Statement child … )` or the bare children of a
+statement; answers `ok ( Statement … )` after `grouping.group`, or `err <PyErr>` -/
+def cmdGroup (ws : List String) : String :=
+  match ws with
+  | fuel :: rest =>
+    match parseNodes (rest.filter (· ≠ "")) with
+    | none => "bad-request"
+    | some ns =>
+      let kids := match ns with
+        | [.grp .Statement ks] => ks
+        | _ => ns
+      match group fuel.toNat! kids with
+      | .error e => "err " ++ e.name
+      | .ok ks => "ok " ++ (Node.grp .Statement ks).sexp
+  | [] => "bad-request"
+-- <<< grouping commands --------------------------------------------------------------------------
+
+/-- `quiet <hex text>`: lex one statement body and evaluate the hypotheses of the C05/C17 unit theorems on its tokens:
+`ok <quiet> <headNotEos> <level> <isCreate> <beginDepth> <inCase>` -/
+def cmdQuiet (s : Array Nat) : String :=
+  match lex defaultCfg s with
+  | .error e => "err " ++ e.name
+  | .ok ts =>
+    let r := runFL defaultSplitCfg {} 0 ts
+    s!"ok {quiet defaultSplitCfg {} 0 ts} {headNotEos defaultSplitCfg ts} {r.snd} {r.fst.isCreate} {r.fst.beginDepth} {r.fst.inCase}"
+
 def handle (line : String) : String :=
   match (line.trimRight.splitOn " ") with
   | "re" :: rest => cmdRe (parseText rest)
   | "lex" :: rest => cmdLex (parseText rest)
   | "split" :: rest => cmdSplit (parseText rest)
+  | "csl" :: rest => cmdCsl rest
+  | "quiet" :: rest => cmdQuiet (parseText rest)
+  | "parse" :: rest => cmdParse rest
+  | "group" :: rest => cmdGroup rest
+  -- >>> formatting-side commands (SqlModel/FilterDriver.lean)
+  | "opt" :: rest => Sql.Driver.cmdOpt rest
+  | "tokfilter" :: rest => Sql.Driver.cmdTokFilter rest
+  | "treefilter" :: rest => Sql.Driver.cmdTreeFilter rest
+  | "serialize" :: rest => Sql.Driver.cmdSerialize rest
+  | "sertext" :: rest => Sql.Driver.cmdSerText rest
+  | "caseconv" :: rest => Sql.Driver.cmdCaseConv rest
+  -- <<< formatting-side commands
   | _ => "bad-request"
 
 partial def loop (h : IO.FS.Stream) (out : IO.FS.Stream) : IO Unit := do
